@@ -404,7 +404,8 @@ fn check_case(c: &Case) -> Result<(), String> {
     }
 }
 
-const ALPHABET: [char; 46] = [
+const ALPHABET: [char; 47] = [
+    '_',
     ' ', '\n', '\r', '\t', '\0', '\u{7}', '\u{1b}', '\u{7f}', '\u{85}', '\u{a0}', '\u{2028}', '\u{2029}',
     '\u{feff}', 'é', '😀', ':', '-', '?', '#', ',', '[', ']', '{', '}', '&', '*', '!', '|', '>', '\'', '"',
     '%', '@', '`', '\\', '<', '=', '~', '.', '0', '1', 'x', 'e', 'n', 'y', 'a',
@@ -476,7 +477,7 @@ impl Property for C12 {
     const ID: &'static str = "C12";
     type Case = Case;
     fn rule() -> String {
-        "cases = (scalar value, position, serializer options); strings: exhaustive over all strings of length <= L over a 46-character adversarial alphabet (L=2 with all positions/options, L=3 with rotating position/option; thorough adds L=4), a 64-entry look-alike lexicon with every 1-character prefix/suffix, random long strings; floats: boundaries, strided f32 bit patterns (thorough: all 2^32 at root), random f64; integers: all width boundaries +-2 and random; chars, bools, unit/None, byte arrays. Oracle: from_str::<T>(to_string_with_options(v)) == v (floats by bit pattern), float tokens match the YAML float grammar, strings additionally must read back as the same *string* in an untyped tree and the output must be one document. Non-trivial: string/char containing a non-alphanumeric character; non-finite, subnormal or >= 9 (f32) / >= 16 (f64) significant digit floats; every integer boundary case; non-empty byte arrays. distinct = distinct (value, position, options).".into()
+        "cases = (scalar value, position, serializer options); strings: exhaustive over all strings of length <= L over a 47-character adversarial alphabet (L=2 with all positions/options, L=3 with rotating position/option; thorough adds L=4), a 64-entry look-alike lexicon with every 1-character prefix/suffix, random long strings; floats: boundaries, strided f32 bit patterns (thorough: all 2^32 at root), random f64; integers: all width boundaries +-2 and random; chars, bools, unit/None, byte arrays. Oracle: from_str::<T>(to_string_with_options(v)) == v (floats by bit pattern), float tokens match the YAML float grammar, strings additionally must read back as the same *string* in an untyped tree and the output must be one document. Non-trivial: string/char containing a non-alphanumeric character; non-finite, subnormal or >= 9 (f32) / >= 16 (f64) significant digit floats; every integer boundary case; non-empty byte arrays. distinct = distinct (value, position, options).".into()
     }
     fn assumptions() -> Vec<String> {
         vec![
@@ -555,7 +556,7 @@ impl Property for C12 {
         ctx.subspace("strings len<=2 x 12 positions x 11 option vectors", total2 * 12 * fam.len() as u64, true);
         // length 3: every string, position and option vector rotate (each string: 3 combos quick, 12x3 thorough)
         let total3 = n * n * n;
-        let combos = if thorough { 36 } else { 4 };
+        let combos = if thorough { 36 } else { 12 };
         for k in 0..total3 {
             if !ctx.mine(k) {
                 continue;
@@ -616,12 +617,12 @@ impl Property for C12 {
         let pos_s = prop::sample::select(POS_ALL.to_vec());
         let opt_s = (0u32..(1 << 14)).prop_map(SerOpts::from_bits);
         let strat = (long_string(), pos_s.clone(), opt_s.clone()).prop_map(|(s, pos, opts)| Case { val: Val::Str(s), pos, opts });
-        ctx.run_strategy("str-long-random", 1, ctx.tier.pick(4_000, 60_000), &strat, nontrivial);
+        ctx.run_strategy("str-long-random", 1, ctx.tier.pick(20_000, 100_000), &strat, nontrivial);
         let strat = ("\\PC{0,12}", pos_s.clone(), opt_s.clone()).prop_map(|(s, pos, opts)| Case { val: Val::Str(s), pos, opts });
-        ctx.run_strategy("str-unicode-random", 2, ctx.tier.pick(4_000, 60_000), &strat, nontrivial);
+        ctx.run_strategy("str-unicode-random", 2, ctx.tier.pick(40_000, 200_000), &strat, nontrivial);
         let strat = (prop::collection::vec(prop::sample::select(ALPHABET.to_vec()), 4..10), pos_s.clone(), opt_s.clone())
             .prop_map(|(s, pos, opts)| Case { val: Val::Str(s.into_iter().collect()), pos, opts });
-        ctx.run_strategy("str-alphabet-random", 3, ctx.tier.pick(10_000, 200_000), &strat, nontrivial);
+        ctx.run_strategy("str-alphabet-random", 3, ctx.tier.pick(100_000, 400_000), &strat, nontrivial);
         let strat = (prop::collection::vec(prop::sample::select(ALPHABET.to_vec()), 0..5), pos_s.clone(), opt_s.clone())
             .prop_map(|(s, pos, opts)| Case { val: Val::SomeStr(s.into_iter().collect()), pos, opts });
         ctx.run_strategy("option-string", 4, ctx.tier.pick(4_000, 50_000), &strat, nontrivial);
@@ -684,7 +685,7 @@ impl Property for C12 {
         }
         let fpos = prop::sample::select(POS_ALL.iter().copied().filter(|p| *p != Pos::MapKey).collect::<Vec<_>>());
         let strat = (any::<u64>(), fpos.clone(), opt_s.clone()).prop_map(|(b, pos, opts)| Case { val: Val::F64(b), pos, opts });
-        ctx.run_strategy("f64-random-bits", 5, ctx.tier.pick(120_000, 12_000_000), &strat, nontrivial);
+        ctx.run_strategy("f64-random-bits", 5, ctx.tier.pick(600_000, 12_000_000), &strat, nontrivial);
         // "short" decimals: values like 0.1, 1e21, 123456.789 whose shortest repr is short
         let strat = ((-400i32..400), 0u64..100000, fpos.clone(), opt_s.clone()).prop_map(|(e, m, pos, opts)| {
             let f: f64 = format!("{m}e{e}").parse().unwrap();
